@@ -14,6 +14,16 @@ def check_c15(ctx):
     # with the name of another one (the diagram of B covers B's types only)
     for s in scn[::4]:
         s["decls"] = with_namesake_prefix(s["decls"], "B", "BB")
+    # every third program gets two more applications whose tables refer to each other across the application boundary
+    # (key by column, whole table, optional key, two keys to one table): the generator draws such references rarely
+    for i, s in enumerate(scn):
+        if i % 3 == 1:
+            s["decls"] = s["decls"] + cross_application_tables(i // 3)
+    # the two applications alone, in every variant, also drawn as one diagram of the whole module: both ends of a key
+    # into another application are then in the diagram.  (Whole-module diagrams of the generated programs are not
+    # judged: there the bare-name class aliases of tables, the known finding below, show in ever new roles.)
+    for v in range(4):
+        scn.append({"id": len(scn) + 1, "decls": cross_application_tables(v), "seed": ctx.seed, "mermaid": False, "whole": True})
     events, _ = core.vh_sharded(ctx, "datamodel", scn, timeout=3000)
     prints, nev, _ = core.validate(ctx, "DataModelTrace", "DataModelTrace.cfg", events, chunk=40000)
     begins = {e["t"]: e for e in events if e["e"] == "begin"}
@@ -48,7 +58,15 @@ def check_c15(ctx):
                 continue
         cls = _classify(b, diags.get(t))
         if cls and all("relation" in x for x in cls.split(",")) and names <= {"RelationshipMissing", "RelationshipToUndeclaredClass", "RelationshipNotInModel"}:
-            sig = "C15/relationship-lines-involving-a-table"
+            # one signature per role of a wrong line (kinds of the two ends, direction, wrapper of the fields, same or
+            # other application), so that the known finding lists the roles that fail today and nothing else
+            for role in _table_roles(b, diags.get(t)):
+                core.add_violation(ctx, "C15/table-relationship/" + role,
+                                   "application %s: %s; types=%s fields=%s; diagram edges=%s undeclared=%s" % (
+                                       b.get("app"), sorted(names), json.dumps(b.get("mtypes")), json.dumps(b.get("mfields")),
+                                       json.dumps(diags.get(t, {}).get("edges")), json.dumps(diags.get(t, {}).get("undeclared")))[:1500],
+                                   {"family": "datamodel", "scenario": by_id[t // 10], "app": b.get("app")})
+            continue
         else:
             sig = "C15/" + "+".join(sorted(names)) + ("/" + cls if cls else "")
         what = "application %s: %s; types=%s fields=%s; diagram edges=%s undeclared=%s" % (
@@ -66,6 +84,38 @@ def check_c15(ctx):
         "forbidden; a reference to a type of another application is neither required nor forbidden in a per-application diagram",
         "field types are compared as text (primitive name or reference as written, inside Set / Sequence / List); multiplicity labels are not compared",
     ])
+
+
+def cross_application_tables(variant):
+    """Applications P and Q: tables with plain foreign keys into each other (and one local key)."""
+    pos = {"file": "", "line": 0, "col": 0}
+
+    def app(name):
+        return {"k": "app", "name": name, "long": "", "tags": [], "attrs": [], "pos": pos}
+
+    def typ(name, kind="relation"):
+        return {"pos": pos, "tags": [], "attrs": [], "k": "type", "name": name, "kind": kind}
+
+    def fld(name, p="", ref=(), opt=False, pk=False):
+        return {"sh": {"p": p, "ref": list(ref), "size": [], "opt": opt, "wrap": ""}, "pos": pos, "tags": [], "attrs": [],
+                "k": "field", "name": name, "pk": pk}
+
+    end = {"k": "end"}
+    v = variant % 4
+    d = [app("P"),
+         typ("K"), fld("id", "int", pk=True), fld("l", ref=("Q", "L", "id")), end]
+    if v in (1, 3):
+        d += [typ("J"), fld("id", "int", pk=True), fld("k", ref=("", "K", "id")), fld("l1", ref=("Q", "L", "id")),
+              fld("l2", ref=("Q", "L", "id"), opt=(v == 3)), end]
+    d += [end, app("Q"),
+          typ("L"), fld("id", "int", pk=True)]
+    if v >= 2:
+        d += [fld("k", ref=("P", "K", "id"))]
+    d += [end]
+    if v == 2:
+        d += [typ("N", "tuple"), fld("k", ref=("P", "K")), end]
+    d += [end]
+    return d
 
 
 def with_namesake_prefix(decls, app, twin):
@@ -116,6 +166,33 @@ def _type_diffs(b, d):
             rk = "local-type"
         out.setdefault("%s/%s/%s" % (kinds.get(c, "?"), m[3] or "plain", rk), (c, n, want, ty))
     return out
+
+
+def _table_roles(b, d):
+    """Like _classify, with the wrapper of the referring fields and whether the two ends are of one application."""
+    kinds = {t[0]: t[1] for t in b["mtypes"]}
+    drawn = {k for k, v in kinds.items() if v in ("tuple", "relation", "enum", "alias")}
+    want, opt, got, wraps = {}, {}, {}, {}
+    for c, f, tg, wr in [x[:4] for x in b["mfields"]]:
+        key = (c, tg.rstrip("?"))
+        if key[1] in drawn:
+            wraps.setdefault(key, set()).add(wr or "plain")
+        if tg.endswith("?"):
+            if tg[:-1] in drawn:
+                opt[key] = opt.get(key, 0) + 1
+        elif tg in drawn:
+            want[key] = want.get(key, 0) + 1
+    for e in d.get("edges") or []:
+        got[(e[0], e[1])] = got.get((e[0], e[1]), 0) + 1
+    roles = set()
+    for (c, tg) in set(want) | set(got):
+        w, g, o = want.get((c, tg), 0), got.get((c, tg), 0), opt.get((c, tg), 0)
+        if g < w or g > w + o:
+            d_ = "fwd" if tg > c else ("self" if tg == c else "back")
+            app = "same-application" if c.split(".")[0] == tg.split(".")[0] else "other-application"
+            roles.add("%s/%s->%s/%s/%s/%s" % ("missing" if g < w else "extra", kinds.get(c, "?"), kinds.get(tg, "?"), d_,
+                                            "+".join(sorted(wraps.get((c, tg), {"none"}))), app))
+    return sorted(roles)
 
 
 def _classify(b, d):
